@@ -627,6 +627,11 @@ func c35alphabet(fam string, e *h2env, m *c35model) []c35ev {
 			c35W(0, c35maxWin, "max"), c35W(1, c35maxWin, "max"), c35W(0, c35fit, "fit"), c35W(1, c35fit, "fit"), c35W(0, 1, "1"), c35W(1, 1, "1"),
 			c35S("iwsmax"), c35S("iws0"))
 		hops = []string{"RET", "WF"}
+	case "drift":
+		// handler writes on a stream that was reset, then the connection window is driven to its
+		// maximum: the server's own copy of the window must not have drifted
+		add(c35H(1, "ok", false), c35R(1), c35W(0, c35fit, "fit"), c35W(0, 1, "1"))
+		hops = []string{"RET", "WF"}
 	case "wu0":
 		add(c35H(1, "ok", false), c35H(3, "ok", true), c35R(1),
 			c35W(0, 0, "0"), c35W(1, 0, "0"), c35W(3, 0, "0"), c35W(1, 1, "1"), c35W(3, 1, "1"), c35W(5, 1, "1"), c35W(3, c35maxWin, "max"))
@@ -1341,6 +1346,7 @@ func TestVerifC35(t *testing.T) {
 		{"cont", r.Pick(4, 5)},
 		{"flow", r.Pick(4, 5)},
 		{"wu0", r.Pick(4, 5)},
+		{"drift", r.Pick(5, 6)},
 		{"ctrl", r.Pick(3, 4)},
 		{"stall", r.Pick(4, 6)},
 		{"gate", r.Pick(5, 6)},
